@@ -39,6 +39,7 @@ pub fn generate(prop: &str, tier: &str, seed: u64, outdir: &str) {
         "C19" => gen_c19(&mut out, &mut rng, thorough),
         "C14" => gen_c14(&mut out, &mut rng, thorough),
         "C07" => gen_c07(&mut out, &mut rng, thorough),
+        "C11" => gen_c11(&mut out, &mut rng, thorough),
         _ => {
             eprintln!("no generator for {prop}");
             std::process::exit(2);
@@ -682,5 +683,48 @@ fn gen_c07(out: &mut Out, rng: &mut Rng, thorough: bool) {
         let len = rng.below(12) as usize;
         let s: String = (0..len).map(|_| *rng.pick(&pool)).collect();
         out.req("validate_random", format!("validate {cat} {}", hex_of_str(&s)));
+    }
+}
+
+// ------------------------------------------------------------------------------------
+// C11 (name codec part)
+
+pub fn c11_name_pool() -> Vec<char> {
+    // packable, unpackable ASCII, non-ASCII, packing-range code points, table marker, reserved
+    "aZ09._ -#\u{e9}\u{4e2d}\u{3800}\u{3801}\u{47ff}\u{4800}\u{483f}\u{4840}\u{4841}\u{5}/\\:!\u{1f600}".chars().collect()
+}
+
+fn gen_c11(out: &mut Out, rng: &mut Rng, thorough: bool) {
+    let pool = c11_name_pool();
+    let ml = if thorough { 4 } else { 3 };
+    all_strings(&pool, ml, &mut |s| {
+        let h = hex_of_str(s);
+        out.req("codec_exhaustive", format!("sn_valid {h} 0"));
+        out.req("codec_exhaustive", format!("sn_encode {h} 0"));
+        out.req("codec_exhaustive", format!("sn_decode {h}"));
+    });
+    out.exhaustive.push(format!("all names of length <= {ml} over {} characters (packable, unpackable, packing range, table marker, reserved): is_valid / encode / decode", pool.len()));
+    // every length up to and beyond the limit, packable and not
+    for len in 0..=70usize {
+        for ch in ['a', '-', '\u{e9}', '\u{1f600}'] {
+            let s: String = std::iter::repeat(ch).take(len).collect();
+            let h = hex_of_str(&s);
+            for t in [0, 1] {
+                out.req("length_limit", format!("sn_valid {h} {t}"));
+                out.req("length_limit", format!("sn_encode {h} {t}"));
+            }
+            let mixed: String = (0..len).map(|i| if i % 3 == 2 { '-' } else { 'b' }).collect();
+            out.req("length_limit", format!("sn_valid {} 0", hex_of_str(&mixed)));
+            out.req("length_limit", format!("sn_encode {} 0", hex_of_str(&mixed)));
+        }
+    }
+    let n = if thorough { 300_000 } else { 30_000 };
+    for _ in 0..n {
+        let len = rng.below(40) as usize;
+        let s: String = (0..len).map(|_| if rng.chance(2, 3) { *rng.pick(&['a', 'B', '7', '.', '_']) } else { *rng.pick(&pool) }).collect();
+        let h = hex_of_str(&s);
+        out.req("codec_random", format!("sn_valid {h} {}", rng.below(2)));
+        out.req("codec_random", format!("sn_encode {h} {}", rng.below(2)));
+        out.req("codec_random", format!("sn_decode {h}"));
     }
 }
